@@ -160,7 +160,7 @@ package atree
 //@   before[C13] OrderedMap.setCallbackWithChild: k == svOf(keyStorable) && v == svOf(valueStorable) && ite(nextKeyStorable != nil, nextKey == svOf(nextKeyStorable), nextKey == nil) &&
 //@        arg_comparator == comparator && arg_hip == hip && arg_key == key && arg_child == v
 //@   exit[C13] err == nil ==> nk == nextKey
-//@   modifies OrderedMap.parentUpdater, Array.parentUpdater, basicDigester.circleHash64, basicDigester.blake3Hash, basicDigester.msg, basicDigester.scratch, alloc
+//@   modifies OrderedMap.parentUpdater, Array.parentUpdater, basicDigester.circleHash64, basicDigester.blake3Hash, basicDigester.msg, basicDigester.scratch, alloc, ghost.wired
 
 //@ func (m *OrderedMap) getNextKey(comparator, hip, key) (nk, err)  serves C13 C18
 //@   trusted "composition of digest computation and root dispatch; the hand-off itself is verified on the slab and element functions"
@@ -171,20 +171,24 @@ package atree
 //@   requires i.m != nil
 //@   ensures old(i.nextKey) == nil ==> k == nil && v == nil && err == nil && i.nextKey == nil
 //@   ensures err != nil ==> i.nextKey == old(i.nextKey) && k == nil && v == nil
-//@   modifies i.nextKey, OrderedMap.parentUpdater, Array.parentUpdater, alloc
+//@   # the map is asked about the cursor key, with the iterator's own comparator and hash-input provider (C13)
+//@   before[C13] OrderedMap.getElementAndNextKey: arg_recv == i.m && arg_comparator == i.comparator && arg_hip == i.hip && arg_key == i.nextKey && i.nextKey == old(i.nextKey)
+//@   modifies i.nextKey, OrderedMap.parentUpdater, Array.parentUpdater, alloc, ghost.wired
 
 //@ func (i *mutableMapIterator) NextKey() (k, err)  serves C13
 //@   requires i.m != nil
 //@   ensures old(i.nextKey) == nil ==> k == nil && err == nil && i.nextKey == nil
 //@   ensures err == nil ==> k == old(i.nextKey)
 //@   ensures err != nil ==> i.nextKey == old(i.nextKey) && k == nil
+//@   before[C13] OrderedMap.getNextKey: arg_recv == i.m && arg_comparator == i.comparator && arg_hip == i.hip && arg_key == old(i.nextKey) && i.nextKey == old(i.nextKey)
 //@   modifies i.nextKey, alloc
 
 //@ func (i *mutableMapIterator) NextValue() (v, err)  serves C13
 //@   requires i.m != nil
 //@   ensures old(i.nextKey) == nil ==> v == nil && err == nil && i.nextKey == nil
 //@   ensures err != nil ==> i.nextKey == old(i.nextKey) && v == nil
-//@   modifies i.nextKey, OrderedMap.parentUpdater, Array.parentUpdater, alloc
+//@   before[C13] OrderedMap.getElementAndNextKey: arg_recv == i.m && arg_comparator == i.comparator && arg_hip == i.hip && arg_key == i.nextKey && i.nextKey == old(i.nextKey)
+//@   modifies i.nextKey, OrderedMap.parentUpdater, Array.parentUpdater, alloc, ghost.wired
 
 //@ # ---- read-only iteration: leaf by leaf through the sibling links, element by element inside a leaf, depth-first into groups
 
@@ -223,7 +227,7 @@ package atree
 //@   ensures k >= len(e.elems) ==> err != nil && el == nil && isUser(err)
 //@   pure
 
-//@ # one step inside a leaf: a plain element is yielded and the cursor moves by one; a group is entered (nested cursor) and the
+//@ # one step inside a leaf: a plain element is itYielded and the cursor moves by one; a group is entered (nested cursor) and the
 //@ # cursor moves past it; from a cursor with no open group, (nil, nil, nil) is returned only at the end of the list (or on
 //@ # entering a group that yields nothing, which non-emptiness of collision groups excludes: not verified here)
 //@ func (i *mapElementIterator) next() (key, value, err)  serves C13 C18
@@ -249,3 +253,285 @@ package atree
 //@   ensures[C13] err != nil ==> i.nextDataSlabID == old(i.nextDataSlabID) && i.elemIterator == old(i.elemIterator)
 //@   ensures[C18] err != nil ==> categorised(err)
 //@   modifies i.nextDataSlabID, i.elemIterator, alloc
+
+//@ # ---- read-only map iterator, one step (C13): at the end of the sibling chain nothing is itYielded; otherwise the element cursor of the
+//@ # current leaf is advanced, and what it yields is converted with the map's storage and registered for mutation detection
+//@ # a key / value handed out by the read-only iterator gets an updater that refuses mutation; nothing else is written
+//@ func (i *readOnlyMapIterator) setMutationCallback(key, value)  serves C13
+//@   modifies Array.parentUpdater, OrderedMap.parentUpdater, alloc, ghost.wired
+
+//@ func (i *readOnlyMapIterator) Next() (key, value, err)  serves C13 C18
+//@   requires i.m != nil && i.m.Storage != nil
+//@   assume i.elemIterator != nil ==> i.elemIterator.elements != nil && 0 <= i.elemIterator.index && (is(i.elemIterator.elements, *hkeyElements) || is(i.elemIterator.elements, *singleElements)) because "cursor invariant: an open element cursor was created by advance() on a leaf's element list"
+//@   ensures[C13] old(i.elemIterator) == nil && old(i.nextDataSlabID) == SlabIDUndefined ==> key == nil && value == nil && err == nil
+//@   before[C13] mapElementIterator.next: arg_recv == i.elemIterator && i.elemIterator != nil
+//@   before[C13] Storable.StoredValue: (arg_recv == ks || arg_recv == vs) && arg_storage == i.m.Storage
+//@   before[C13] readOnlyMapIterator.setMutationCallback: arg_recv == i && arg_key == key && arg_value == value && key == svOf(ks) && value == svOf(vs)
+//@   modifies i.nextDataSlabID, i.elemIterator, mapElementIterator.index, mapElementIterator.nestedIterator, Array.parentUpdater, OrderedMap.parentUpdater, alloc, ghost.wired
+
+//@ func (i *readOnlyMapIterator) NextKey() (key, err)  serves C13 C18
+//@   requires i.m != nil && i.m.Storage != nil
+//@   assume i.elemIterator != nil ==> i.elemIterator.elements != nil && 0 <= i.elemIterator.index && (is(i.elemIterator.elements, *hkeyElements) || is(i.elemIterator.elements, *singleElements)) because "cursor invariant: an open element cursor was created by advance() on a leaf's element list"
+//@   ensures[C13] old(i.elemIterator) == nil && old(i.nextDataSlabID) == SlabIDUndefined ==> key == nil && err == nil
+//@   before[C13] mapElementIterator.next: arg_recv == i.elemIterator && i.elemIterator != nil
+//@   before[C13] Storable.StoredValue: arg_recv == ks && arg_storage == i.m.Storage
+//@   before[C13] readOnlyMapIterator.setMutationCallback: arg_recv == i && arg_key == key && arg_value == nil && key == svOf(ks)
+//@   modifies i.nextDataSlabID, i.elemIterator, mapElementIterator.index, mapElementIterator.nestedIterator, Array.parentUpdater, OrderedMap.parentUpdater, alloc, ghost.wired
+
+//@ func (i *readOnlyMapIterator) NextValue() (value, err)  serves C13 C18
+//@   requires i.m != nil && i.m.Storage != nil
+//@   assume i.elemIterator != nil ==> i.elemIterator.elements != nil && 0 <= i.elemIterator.index && (is(i.elemIterator.elements, *hkeyElements) || is(i.elemIterator.elements, *singleElements)) because "cursor invariant: an open element cursor was created by advance() on a leaf's element list"
+//@   ensures[C13] old(i.elemIterator) == nil && old(i.nextDataSlabID) == SlabIDUndefined ==> value == nil && err == nil
+//@   before[C13] mapElementIterator.next: arg_recv == i.elemIterator && i.elemIterator != nil
+//@   before[C13] Storable.StoredValue: arg_recv == vs && arg_storage == i.m.Storage
+//@   before[C13] readOnlyMapIterator.setMutationCallback: arg_recv == i && arg_key == nil && arg_value == value && value == svOf(vs)
+//@   modifies i.nextDataSlabID, i.elemIterator, mapElementIterator.index, mapElementIterator.nestedIterator, Array.parentUpdater, OrderedMap.parentUpdater, alloc, ghost.wired
+
+//@ # ---- the iterate helpers (C13): every element the iterator yields is handed to the callback, once and unchanged, until the
+//@ # iterator is exhausted, the callback asks to stop, or either fails. itYielded / itVisited count the events (ghost; the iterator
+//@ # does not call the callback and the callback does not advance the iterator: assumed, A2).
+//@ ghost itYielded : int
+//@ ghost itVisited : int
+//@ iface MapIterator.Next() (k, v, err)
+//@   ghostdef itYielded == old(itYielded) + ite(err == nil && k != nil, 1, 0)
+//@   ghostdef itVisited == old(itVisited)
+//@   modifies heap, ghost.itYielded, alloc
+//@ iface MapIterator.NextKey() (k, err)
+//@   ghostdef itYielded == old(itYielded) + ite(err == nil && k != nil, 1, 0)
+//@   ghostdef itVisited == old(itVisited)
+//@   modifies heap, ghost.itYielded, alloc
+//@ iface MapIterator.NextValue() (v, err)
+//@   ghostdef itYielded == old(itYielded) + ite(err == nil && v != nil, 1, 0)
+//@   ghostdef itVisited == old(itVisited)
+//@   modifies heap, ghost.itYielded, alloc
+//@ iface ArrayIterator.Next() (v, err)
+//@   ghostdef itYielded == old(itYielded) + ite(err == nil && v != nil, 1, 0)
+//@   ghostdef itVisited == old(itVisited)
+//@   modifies heap, ghost.itYielded, alloc
+//@ functype MapEntryIterationFunc(k, v) (resume, err)
+//@   ghostdef itVisited == old(itVisited) + 1
+//@   ghostdef itYielded == old(itYielded)
+//@   modifies heap, ghost.itVisited, alloc
+//@ functype MapElementIterationFunc(x) (resume, err)
+//@   ghostdef itVisited == old(itVisited) + 1
+//@   ghostdef itYielded == old(itYielded)
+//@   modifies heap, ghost.itVisited, alloc
+//@ functype ArrayIterationFunc(x) (resume, err)
+//@   ghostdef itVisited == old(itVisited) + 1
+//@   ghostdef itYielded == old(itYielded)
+//@   modifies heap, ghost.itVisited, alloc
+
+//@ func iterateMap(iterator, fn) (err)  serves C13 C18
+//@   requires iterator != nil && fn != nil
+//@   before[C13] MapEntryIterationFunc: arg_k == key && arg_v == value && key != nil && itYielded - old(itYielded) == itVisited - old(itVisited) + 1
+//@   ensures[C13] itVisited - old(itVisited) == itYielded - old(itYielded)
+//@   modifies heap, ghost.itYielded, ghost.itVisited, alloc
+//@   loop 1: invariant itVisited - old(itVisited) == itYielded - old(itYielded)
+
+//@ func iterateMapKeys(iterator, fn) (err)  serves C13 C18
+//@   requires iterator != nil && fn != nil
+//@   before[C13] MapElementIterationFunc: arg_x == key && key != nil && itYielded - old(itYielded) == itVisited - old(itVisited) + 1
+//@   ensures[C13] itVisited - old(itVisited) == itYielded - old(itYielded)
+//@   modifies heap, ghost.itYielded, ghost.itVisited, alloc
+//@   loop 1: invariant itVisited - old(itVisited) == itYielded - old(itYielded)
+
+//@ func iterateMapValues(iterator, fn) (err)  serves C13 C18
+//@   requires iterator != nil && fn != nil
+//@   before[C13] MapElementIterationFunc: arg_x == value && value != nil && itYielded - old(itYielded) == itVisited - old(itVisited) + 1
+//@   ensures[C13] itVisited - old(itVisited) == itYielded - old(itYielded)
+//@   modifies heap, ghost.itYielded, ghost.itVisited, alloc
+//@   loop 1: invariant itVisited - old(itVisited) == itYielded - old(itYielded)
+
+//@ func iterateArray(iterator, fn) (err)  serves C13 C18
+//@   requires iterator != nil && fn != nil
+//@   before[C13] ArrayIterationFunc: arg_x == value && value != nil && itYielded - old(itYielded) == itVisited - old(itVisited) + 1
+//@   ensures[C13] itVisited - old(itVisited) == itYielded - old(itYielded)
+//@   modifies heap, ghost.itYielded, ghost.itVisited, alloc
+//@   loop 1: invariant itVisited - old(itVisited) == itYielded - old(itYielded)
+
+//@ # ---- loaded-value iteration of maps (C13): same discipline as for arrays; groups are entered through a nested cursor
+//@ func (i *mapLoadedSlabIterator) next() (r)  serves C13
+//@   requires i.storage != nil && i.slab != nil && 0 <= i.index
+//@   ensures[C13] old(i.index) <= i.index && i.index <= ite(old(i.index) <= len(i.slab.childrenHeaders), len(i.slab.childrenHeaders), old(i.index)) && i.slab == old(i.slab) && i.storage == old(i.storage)
+//@   ensures[C13] r != nil ==> i.index > old(i.index) && r == sto[i.slab.childrenHeaders[i.index - 1].slabID]
+//@   ensures[C13] r == nil ==> i.index >= len(i.slab.childrenHeaders)
+//@   before[C13] SlabStorage.RetrieveIfLoaded: arg_recv == i.storage && i.index >= 1 && i.index <= len(i.slab.childrenHeaders) && arg_id == i.slab.childrenHeaders[i.index - 1].slabID
+//@   modifies i.index
+//@   loop 1: invariant old(i.index) <= i.index && i.index <= ite(old(i.index) <= len(i.slab.childrenHeaders), len(i.slab.childrenHeaders), old(i.index)) && i.slab == old(i.slab) && i.storage == old(i.storage)
+
+//@ # one step inside a leaf: the element at the cursor is read and the cursor moves past it; a plain element is itYielded when both its
+//@ # key and its value are loaded; a group is entered with a new cursor at its first element (an external group only when its slab is loaded)
+//@ func (i *mapLoadedElementIterator) next() (key, value, err)  serves C13 C18
+//@   requires i.storage != nil && i.elements != nil && 0 <= i.index && (is(i.elements, *hkeyElements) || is(i.elements, *singleElements))
+//@   assume len(as(i.elements, *hkeyElements).elems) <= 4294967295 && len(as(i.elements, *singleElements).elems) <= 4294967295 because "element lists of a slab hold fewer than 2^32 elements (slab size limit)"
+//@   assume forall it *mapLoadedElementIterator :: {it.elements} it != nil && allocated(it) ==> it.storage != nil && it.elements != nil && 0 <= it.index && (is(it.elements, *hkeyElements) || is(it.elements, *singleElements)) because "nested cursors are created by this function on element lists"
+//@   assume forall sg *singleElement :: {sg.key} sg != nil ==> sg.key != nil && sg.value != nil because "tree invariant: stored elements have non-nil keys and values"
+//@   before[C13] elements.Element: arg_recv == i.elements && arg_k == i.index && i.collisionGroupIterator == nil
+//@   before[C13] getLoadedValue: arg_storage == i.storage && is(element, *singleElement) && (arg_storable == as(element, *singleElement).key || arg_storable == as(element, *singleElement).value)
+//@   before[C13] SlabStorage.RetrieveIfLoaded: arg_recv == i.storage && is(element, *externalCollisionGroup) && arg_id == as(element, *externalCollisionGroup).slabID
+//@   ensures[C18] err != nil ==> key == nil && value == nil
+//@   modifies mapLoadedElementIterator.index, mapLoadedElementIterator.collisionGroupIterator, alloc
+
+//@ func (i *MapLoadedValueIterator) nextDataIterator() (r, err)  serves C13 C18
+//@   requires i.storage != nil
+//@   before[C13] mapLoadedSlabIterator.next: len(i.parents) >= 1 && arg_recv == i.parents[len(i.parents) - 1]
+//@   ensures[C13] err == nil && r != nil ==> fresh(r) && r.index == 0 && r.collisionGroupIterator == nil
+//@   ensures[C13] err == nil && r == nil ==> len(i.parents) == 0
+//@   ensures[C18] err != nil ==> r == nil
+//@   modifies heap, alloc
+
+//@ func (i *MapLoadedValueIterator) Next() (k, v, err)  serves C13 C18
+//@   requires i.storage != nil
+//@   ghostdef itYielded == old(itYielded) + ite(err == nil && k != nil, 1, 0)
+//@   ghostdef itVisited == old(itVisited)
+//@   before[C13] mapLoadedElementIterator.next: arg_recv == i.dataIterator && i.dataIterator != nil
+//@   before[C13] MapLoadedValueIterator.nextDataIterator: arg_recv == i && i.dataIterator == nil
+//@   ensures[C18] err != nil ==> k == nil && v == nil
+//@   modifies heap, ghost.itYielded, alloc
+
+//@ func (i *MapLoadedValueIterator) NextKey() (k, err)  serves C13
+//@   requires i.storage != nil
+//@   before[C13] MapLoadedValueIterator.Next: arg_recv == i
+//@   modifies heap, alloc
+//@ func (i *MapLoadedValueIterator) NextValue() (v, err)  serves C13
+//@   requires i.storage != nil
+//@   before[C13] MapLoadedValueIterator.Next: arg_recv == i
+//@   modifies heap, alloc
+
+//@ # ---- where each flavour starts (C13): the mutable iterator at the first key of the leftmost leaf, the read-only iterator at the
+//@ # first element of the leftmost leaf with that leaf's sibling link as the next leaf, the loaded-value iterator at the root
+//@ func (m *OrderedMap) Iterator(comparator, hip) (it, err)  serves C13 C18
+//@   requires m.Storage != nil && isMapSlab(m.root) && mapExtra(m) != nil
+//@   before[C13] firstKeyInMapSlab: arg_storage == m.Storage && arg_slab == m.root
+//@   before[C13] Storable.StoredValue: arg_recv == keyStorable && arg_storage == m.Storage
+//@   ensures[C13] err == nil && old(mapExtra(m).Count) != 0 ==> is(it, *mutableMapIterator) && fresh(as(it, *mutableMapIterator)) && as(it, *mutableMapIterator).m == m &&
+//@        as(it, *mutableMapIterator).comparator == comparator && as(it, *mutableMapIterator).hip == hip && as(it, *mutableMapIterator).nextKey != nil
+//@   ensures[C18] err != nil ==> it == nil
+//@   modifies alloc
+
+//@ func (m *OrderedMap) ReadOnlyIteratorWithMutationCallback(keyMutatinCallback, valueMutationCallback) (it, err)  serves C13 C18
+//@   requires m.Storage != nil && isMapSlab(m.root) && mapExtra(m) != nil
+//@   before[C13] firstMapDataSlab: arg_storage == m.Storage && arg_slab == m.root
+//@   ensures[C13] err == nil && old(mapExtra(m).Count) != 0 ==> is(it, *readOnlyMapIterator) && fresh(as(it, *readOnlyMapIterator)) && as(it, *readOnlyMapIterator).m == m &&
+//@        as(it, *readOnlyMapIterator).elemIterator != nil && as(it, *readOnlyMapIterator).elemIterator.index == 0 && as(it, *readOnlyMapIterator).elemIterator.nestedIterator == nil &&
+//@        as(it, *readOnlyMapIterator).elemIterator.storage == m.Storage && fkEs(as(it, *readOnlyMapIterator).elemIterator.elements) == fkS(m.root)
+//@   ensures[C13] err == nil && old(mapExtra(m).Count) != 0 && keyMutatinCallback != nil && valueMutationCallback != nil ==>
+//@        as(it, *readOnlyMapIterator).keyMutationCallback == keyMutatinCallback && as(it, *readOnlyMapIterator).valueMutationCallback == valueMutationCallback
+//@   ensures[C18] err != nil ==> it == nil
+//@   modifies alloc
+
+//@ func (m *OrderedMap) ReadOnlyLoadedValueIterator() (it, err)  serves C13 C18
+//@   requires m.Storage != nil && m.root != nil
+//@   ensures[C13] err == nil ==> it != nil && fresh(it) && it.storage == m.Storage
+//@   ensures[C13] err == nil && is(m.root, *MapDataSlab) ==> len(it.parents) == 0 && it.dataIterator != nil && it.dataIterator.elements == as(m.root, *MapDataSlab).elements &&
+//@        it.dataIterator.index == 0 && it.dataIterator.collisionGroupIterator == nil && it.dataIterator.storage == m.Storage
+//@   ensures[C13] err == nil && is(m.root, *MapMetaDataSlab) ==> it.dataIterator == nil && len(it.parents) == 1 && it.parents[0] != nil && it.parents[0].slab == as(m.root, *MapMetaDataSlab) &&
+//@        it.parents[0].index == 0 && it.parents[0].storage == m.Storage
+//@   ensures[C18] err != nil ==> it == nil
+//@   modifies alloc
+
+//@ # ---- the public enumeration entry points (C13): each builds the iterator of its flavour for this container and hands it, with the
+//@ # caller's callback, to the matching iterate helper
+//@ func (a *Array) Iterate(fn) (err)  serves C13
+//@   requires a.Storage != nil && isArr(a.root)
+//@   before[C13] Array.Iterator: arg_recv == a
+//@   before[C13] iterateArray: arg_iterator == iterator && arg_fn == fn
+//@   modifies heap, ghost.itYielded, ghost.itVisited, alloc
+
+//@ func (a *Array) IterateReadOnly(fn) (err)  serves C13
+//@   requires a.Storage != nil && isArr(a.root)
+//@   before[C13] Array.IterateReadOnlyWithMutationCallback: arg_recv == a && arg_fn == fn && arg_valueMutationCallback == nil
+//@   modifies heap, ghost.itYielded, ghost.itVisited, alloc
+
+//@ func (a *Array) IterateReadOnlyWithMutationCallback(fn, valueMutationCallback) (err)  serves C13
+//@   requires a.Storage != nil && isArr(a.root)
+//@   before[C13] Array.ReadOnlyIteratorWithMutationCallback: arg_recv == a && arg_valueMutationCallback == valueMutationCallback
+//@   before[C13] iterateArray: arg_iterator == iterator && arg_fn == fn
+//@   modifies heap, ghost.itYielded, ghost.itVisited, alloc
+
+//@ func (a *Array) IterateRange(startIndex, endIndex, fn) (err)  serves C13
+//@   requires a.Storage != nil && isArr(a.root)
+//@   before[C13] Array.RangeIterator: arg_recv == a && arg_startIndex == startIndex && arg_endIndex == endIndex
+//@   before[C13] iterateArray: arg_iterator == iterator && arg_fn == fn
+//@   modifies heap, ghost.itYielded, ghost.itVisited, alloc
+
+//@ func (a *Array) IterateReadOnlyRange(startIndex, endIndex, fn) (err)  serves C13
+//@   requires a.Storage != nil && isArr(a.root)
+//@   before[C13] Array.IterateReadOnlyRangeWithMutationCallback: arg_recv == a && arg_startIndex == startIndex && arg_endIndex == endIndex && arg_fn == fn && arg_valueMutationCallback == nil
+//@   modifies heap, ghost.itYielded, ghost.itVisited, alloc
+
+//@ func (a *Array) IterateReadOnlyRangeWithMutationCallback(startIndex, endIndex, fn, valueMutationCallback) (err)  serves C13
+//@   requires a.Storage != nil && isArr(a.root)
+//@   before[C13] Array.ReadOnlyRangeIteratorWithMutationCallback: arg_recv == a && arg_startIndex == startIndex && arg_endIndex == endIndex && arg_cb == valueMutationCallback
+//@   before[C13] iterateArray: arg_iterator == iterator && arg_fn == fn
+//@   modifies heap, ghost.itYielded, ghost.itVisited, alloc
+
+//@ func (a *Array) ReadOnlyIterator() (it, err)  serves C13
+//@   requires a.Storage != nil && isArr(a.root)
+//@   before[C13] Array.ReadOnlyIteratorWithMutationCallback: arg_recv == a && arg_valueMutationCallback == nil
+//@   modifies heap, ghost.itYielded, ghost.itVisited, alloc
+
+//@ func (m *OrderedMap) Iterate(comparator, hip, fn) (err)  serves C13
+//@   requires m.Storage != nil && isMapSlab(m.root) && mapExtra(m) != nil
+//@   before[C13] OrderedMap.Iterator: arg_recv == m && arg_comparator == comparator && arg_hip == hip
+//@   before[C13] iterateMap: arg_iterator == iterator && arg_fn == fn
+//@   modifies heap, ghost.itYielded, ghost.itVisited, alloc
+
+//@ func (m *OrderedMap) IterateReadOnly(fn) (err)  serves C13
+//@   requires m.Storage != nil && isMapSlab(m.root) && mapExtra(m) != nil
+//@   before[C13] OrderedMap.IterateReadOnlyWithMutationCallback: arg_recv == m && arg_fn == fn && arg_keyMutatinCallback == nil && arg_valueMutationCallback == nil
+//@   modifies heap, ghost.itYielded, ghost.itVisited, alloc
+
+//@ func (m *OrderedMap) IterateReadOnlyWithMutationCallback(fn, keyMutatinCallback, valueMutationCallback) (err)  serves C13
+//@   requires m.Storage != nil && isMapSlab(m.root) && mapExtra(m) != nil
+//@   before[C13] OrderedMap.ReadOnlyIteratorWithMutationCallback: arg_recv == m && arg_keyMutatinCallback == keyMutatinCallback && arg_valueMutationCallback == valueMutationCallback
+//@   before[C13] iterateMap: arg_iterator == iterator && arg_fn == fn
+//@   modifies heap, ghost.itYielded, ghost.itVisited, alloc
+
+//@ func (m *OrderedMap) IterateKeys(comparator, hip, fn) (err)  serves C13
+//@   requires m.Storage != nil && isMapSlab(m.root) && mapExtra(m) != nil
+//@   before[C13] OrderedMap.Iterator: arg_recv == m && arg_comparator == comparator && arg_hip == hip
+//@   before[C13] iterateMapKeys: arg_iterator == iterator && arg_fn == fn
+//@   modifies heap, ghost.itYielded, ghost.itVisited, alloc
+
+//@ func (m *OrderedMap) IterateReadOnlyKeys(fn) (err)  serves C13
+//@   requires m.Storage != nil && isMapSlab(m.root) && mapExtra(m) != nil
+//@   before[C13] OrderedMap.IterateReadOnlyKeysWithMutationCallback: arg_recv == m && arg_fn == fn && arg_keyMutatinCallback == nil
+//@   modifies heap, ghost.itYielded, ghost.itVisited, alloc
+
+//@ func (m *OrderedMap) IterateReadOnlyKeysWithMutationCallback(fn, keyMutatinCallback) (err)  serves C13
+//@   requires m.Storage != nil && isMapSlab(m.root) && mapExtra(m) != nil
+//@   before[C13] OrderedMap.ReadOnlyIteratorWithMutationCallback: arg_recv == m && arg_keyMutatinCallback == keyMutatinCallback && arg_valueMutationCallback == nil
+//@   before[C13] iterateMapKeys: arg_iterator == iterator && arg_fn == fn
+//@   modifies heap, ghost.itYielded, ghost.itVisited, alloc
+
+//@ func (m *OrderedMap) IterateValues(comparator, hip, fn) (err)  serves C13
+//@   requires m.Storage != nil && isMapSlab(m.root) && mapExtra(m) != nil
+//@   before[C13] OrderedMap.Iterator: arg_recv == m && arg_comparator == comparator && arg_hip == hip
+//@   before[C13] iterateMapValues: arg_iterator == iterator && arg_fn == fn
+//@   modifies heap, ghost.itYielded, ghost.itVisited, alloc
+
+//@ func (m *OrderedMap) IterateReadOnlyValues(fn) (err)  serves C13
+//@   requires m.Storage != nil && isMapSlab(m.root) && mapExtra(m) != nil
+//@   before[C13] OrderedMap.IterateReadOnlyValuesWithMutationCallback: arg_recv == m && arg_fn == fn && arg_valueMutationCallback == nil
+//@   modifies heap, ghost.itYielded, ghost.itVisited, alloc
+
+//@ func (m *OrderedMap) IterateReadOnlyValuesWithMutationCallback(fn, valueMutationCallback) (err)  serves C13
+//@   requires m.Storage != nil && isMapSlab(m.root) && mapExtra(m) != nil
+//@   before[C13] OrderedMap.ReadOnlyIteratorWithMutationCallback: arg_recv == m && arg_keyMutatinCallback == nil && arg_valueMutationCallback == valueMutationCallback
+//@   before[C13] iterateMapValues: arg_iterator == iterator && arg_fn == fn
+//@   modifies heap, ghost.itYielded, ghost.itVisited, alloc
+
+//@ func (m *OrderedMap) ReadOnlyIterator() (it, err)  serves C13
+//@   requires m.Storage != nil && isMapSlab(m.root) && mapExtra(m) != nil
+//@   before[C13] OrderedMap.ReadOnlyIteratorWithMutationCallback: arg_recv == m && arg_keyMutatinCallback == nil && arg_valueMutationCallback == nil
+//@   modifies heap, ghost.itYielded, ghost.itVisited, alloc
+
+//@ func (m *OrderedMap) IterateReadOnlyLoadedValues(fn) (err)  serves C13 C18
+//@   requires m.Storage != nil && m.root != nil && fn != nil
+//@   before[C13] OrderedMap.ReadOnlyLoadedValueIterator: arg_recv == m
+//@   before[C13] MapLoadedValueIterator.Next: arg_recv == iterator
+//@   before[C13] MapEntryIterationFunc: arg_k == key && arg_v == value && key != nil && itYielded - old(itYielded) == itVisited - old(itVisited) + 1
+//@   ensures[C13] itVisited - old(itVisited) == itYielded - old(itYielded)
+//@   modifies heap, ghost.itYielded, ghost.itVisited, alloc
+//@   loop 1: invariant itVisited - old(itVisited) == itYielded - old(itYielded) && iterator != nil && iterator.storage != nil
